@@ -131,3 +131,26 @@ Proof.
   destruct (its_list_default_end_to_end ex_inp_d ex_tpl_x ex_rc_s ex_l_s ex_r_s gs eq_refl (proj1 ex_default_mode_hyps) Hel
               eq_refl eq_refl ex_tpl_condition eq_refl eq_refl Hs g Ig) as (A & _ & B). auto.
 Qed.
+
+(** the implicit-template mode end to end (proof/C03_LinkImplicit.v), forwards (proton transfer written with counts) and
+    backwards (quaternisation applied to CH3NH3+ . Br-) *)
+From SK Require Import proof.C03_LinkImplicit.
+Definition ex_inp_bwd : rin := RI true false ex_host_bwd (synrule (invert_template ex_rc) false) [(ex_m, None)] [] ex_ser.
+Example ex_implicit_hyps :
+  i_rule (ex_inp false) = synrule ex_rc_h false /\ wf_rcb ex_rc_h = true /\ edges_closedb ex_rc_h = true /\
+  forallb (call_okm ex_host_h (fst (its_decompose ex_rc_h))) (i_calls (ex_inp false)) = true /\
+  wf_rcb ex_rc = true /\ edges_closedb ex_rc = true /\ wf_hostb ex_host_bwd = true /\
+  forallb (call_okm ex_host_bwd (fst (its_decompose (invert_template ex_rc)))) (i_calls ex_inp_bwd) = true /\
+  spec_its ex_inp_bwd = Some [ex_T_bwd] /\ balancedb ex_rc = true.
+Proof. vm_compute. repeat split. Qed.
+Example ex_implicit_end_to_end :
+  instance_of ex_host_h ex_rc_h ex_T_h' /\
+  instance_of ex_host_bwd (invert_template ex_rc) ex_T_bwd /\
+  total_charge (fst (its_decompose ex_T_bwd)) = total_charge (snd (its_decompose ex_T_bwd)).
+Proof.
+  destruct ex_implicit_hyps as (H1 & H2 & H3 & H4 & H5 & H6 & H7 & H8 & H9 & H10).
+  split; [|].
+  - exact (proj1 (its_list_implicit_end_to_end false (ex_inp false) ex_rc_h [ex_T_h'] H1 H2 H3 eq_refl H4 eq_refl ex_T_h' (or_introl eq_refl))).
+  - destruct (its_list_implicit_end_to_end true ex_inp_bwd ex_rc [ex_T_bwd] eq_refl H5 H6 H7 H8 H9 ex_T_bwd (or_introl eq_refl)) as [A B].
+    split; [exact A|exact (proj2 (B H10))].
+Qed.
